@@ -5,12 +5,17 @@ import glob, json, os, subprocess, sys
 ids = sys.argv[1:] or sorted(os.path.basename(d) for d in glob.glob("/verif/benign_seeds/C*"))
 bad = 0
 rows = []
+jobs = []
 for sid in ids:
-    d = "/verif/benign_seeds/" + sid
+    d0 = "/verif/benign_seeds/" + sid
+    ps = sorted(glob.glob(d0 + "/patch[0-9].diff")) or [d0 + "/patch.diff"]
+    for pf in ps:
+        jobs.append((sid if len(ps) == 1 else "%s/%s" % (sid, os.path.basename(pf)[:-5]), d0, pf))
+for sid, d, patchfile in jobs:
     st = subprocess.run(["git", "-C", "/repo", "status", "--porcelain"], capture_output=True, text=True).stdout.strip()
     if st:
         print("refusing: /repo is not clean"); sys.exit(2)
-    a = subprocess.run(["git", "-C", "/repo", "apply", d + "/patch.diff"], capture_output=True, text=True)
+    a = subprocess.run(["git", "-C", "/repo", "apply", patchfile], capture_output=True, text=True)
     if a.returncode != 0:
         print(sid, "PATCH DOES NOT APPLY", a.stderr[:200]); bad += 1; continue
     alarms = {}
@@ -26,8 +31,11 @@ for sid in ids:
     finally:
         subprocess.run(["git", "-C", "/repo", "checkout", "--", "."])
     meta = json.load(open(d + "/meta.json"))
-    meta["alarms"] = alarms
-    meta["silent"] = not alarms
+    if "/" in sid:
+        meta.setdefault("replay", {})[sid.split("/")[1]] = {"alarms": alarms, "silent": not alarms}
+    else:
+        meta["alarms"] = alarms
+        meta["silent"] = not alarms
     json.dump(meta, open(d + "/meta.json", "w"), indent=1)
     print(sid, "silent" if not alarms else "ALARMS %s" % {k: v["exit"] for k, v in alarms.items()})
     rows.append((sid, alarms))
